@@ -90,3 +90,20 @@ Definition pm_example : pm_params := {|
   p_lambda_s := 1.57e-6; p_lambda_i := 1.53e-6; p_omega_s0 := 1.2e15; p_omega_i0 := 1.23e15;
   p_n_s0 := 1.74; p_n_i0 := 1.81; p_n_p0 := 1.78; p_ng_s := 1.76; p_ng_i := 1.85; p_ng_p := 1.83
 |}.
+
+(* the same with all polar angles zero and 2 mm waists: a collinear large-waist setup (C05) *)
+Definition pm_example_collinear : pm_params := {|
+  p_L := 0.002;
+  p_phi_s := 0; p_phi_i := 3.14159;
+  p_theta_s := 0; p_theta_i := 0; p_theta_s_e := 0; p_theta_i_e := 0;
+  p_wsx := 0.002; p_wsy := 0.002; p_wix := 0.003; p_wiy := 0.003; p_wpx := 0.0025; p_wpy := 0.0025;
+  p_z0s := -0.0005; p_z0i := -0.0007;
+  p_dirz_s := 1; p_dirz_i := 1;
+  p_omega_s := 1.2e15; p_omega_i := 1.23e15;
+  p_n_p := 1.78; p_n_s := 1.74; p_n_i := 1.81;
+  p_rho := 0.003; p_k_eff := 136000; p_apod := fun z => 1;
+  p_pp_on := true; p_lambda_p := 7.75e-7; p_omega_p0 := 2.43e15; p_bw := 1e-9;
+  p_power := 100; p_deff := 7.6e-9; p_thr := 0.01;
+  p_lambda_s := 1.57e-6; p_lambda_i := 1.53e-6; p_omega_s0 := 1.2e15; p_omega_i0 := 1.23e15;
+  p_n_s0 := 1.74; p_n_i0 := 1.81; p_n_p0 := 1.78; p_ng_s := 1.76; p_ng_i := 1.85; p_ng_p := 1.83
+|}.
